@@ -76,7 +76,8 @@ def run(ck, rng, tier):
     # already holds the coefficients of a previous call / other numbers
     ols_lines, ols_meta = [], []
     for c in range(6 if not thorough else 40):
-        q, p = rng.randint(4, 15), rng.randint(1, 4)
+        p = rng.randint(1, 4)
+        q = rng.randint(p + 3, 15)          # more equations than coefficients (p + 1)
         Z = np.hstack([np.ones((q, 1)), np.array([[rng.gauss(0, 1) for _ in range(p)] for _ in range(q)])])
         yv = np.array([rng.gauss(0, 2) for _ in range(q)])
         ols_lines.append("ols %s %s" % (vf.fmt_mat(Z.tolist(), p + 1), vf.fmt_vec(yv.tolist()))); ols_meta.append((Z, yv))
